@@ -20,6 +20,14 @@ TEXT = {
             "proof (partial): real stack bytes per level, allocator, time are runtime behaviour"),
     "C05": ("proof", "5 C05", "Theorems C05_fault (success against a writer that dies after k octets implies no internal error and every octet accepted, for every message and every k), C05_range (a Time outside the 32-bit 1900-based range or an AVP/message length of 2^24 or more anywhere in the tree makes the encoder fail; mutual induction), C05_ok_is_complete (a success hands over exactly Spec.encode). Tie: fault enumeration over EVERY k of every corpus frame with short-write / Interrupted / Ok(0) delivery modes, out-of-range Times at every nesting level, lengths at and past 2^24.",
             "std::io::Write::write_all semantics are assumed (and exercised); the writer is modelled by its total budget, which is what the property quantifies over"),
+    "C06": ("proof", "5 C06", "Theorems C06_read_exact (read_exact returns the next n octets of the stream for every chunking and Pending placement; induction over the script), C06_read_frame / C06_read_independent (one call returns the frame's message, consumes exactly |f| octets, leaves exactly the rest - for any two scripts delivering the same octets), C06_write (write_all over arbitrary partial acceptance puts exactly the octets on the stream). Partial: tokio's waker registration is exercised (self-waking scripted stream under a current-thread runtime), not proved. Tie: every pair of cut positions for short streams, dribble, exhaustive two-pause placements, random scripts; partial-write patterns.",
+            "proof (partial): tokio read_exact/write_all loops are modelled as definitions (readExact, writeAll); the async runtime is not modelled"),
+    "C07": ("proof", "5 C07", "Theorems C07_hostile / C07_announced: for every script, no panic site is reachable; an announced length above 1 MiB or below 20 is refused with exactly 4 octets consumed; never more than max(L,4) octets taken. Tie: announced lengths 0..64, around 2^20 and 2^24-1, powers of two, random, each with no / less / exact / more data behind a byte-counting scripted reader.",
+            "allocation of the body buffer is runtime behaviour (exercised)"),
+    "C08": ("proof", "5 C08", "Theorems C08_all_good (induction over the request list: calls = requests, written = answers, nothing else), C08_handler_fails, C08_malformed (after the first bad position no later request reaches the handler and nothing further is written), from the general serve_prefix lemma. Partial: async runtime as in C06. Tie: verif_serve_stream hook on scripted duplex streams, 1..8 requests, segmentation/Pending/partial-write patterns, one failing handler call or malformed frame (4 kinds) at every position.",
+            "proof (partial): tokio scheduling not modelled; the listen()/TCP path is exercised under C10"),
+    "C09": ("proof", "5 C09", "Theorems C09_read_cut (stream ending at ANY offset q inside the next frame: exactly the complete requests were handled, exactly their answers written, loop ended), C09_write_cut (write side failing at any point: calls = reqs.take k, answers to the first k-1 fully written, nothing beyond a prefix of the k-th), C09_write_prefix, C09_no_panic. Partial: promptness (time) is exercised under paused virtual time, not proved. Tie: fault enumeration over EVERY read cut offset (close / dribble+close / reset) and EVERY write failure offset (error and Ok(0)) of each corpus stream.",
+            "proof (partial): termination in real time and wake-ups are runtime behaviour"),
     "C14": ("proof", "5 C14", "Refinement theorem C14_refines: after any history of constructions, document loads and additions the ordered-map model represents the list of supplied definitions (lookup = last supplied for exactly that key; keys strictly sorted, nothing shadowed); corollaries C14_get, C14_no_shadow, C14_by_name_live, C14_by_name_iff, C14_app_declared. Tie: generated histories with colliding codes, names, vendor twins and all must spellings, documents rendered to XML for the real parser; the whole key/name universe is dumped after every step; by-name compared by membership.",
             "serde-xml-rs tokenisation is inside the tie, not the proof"),
     "C15": ("proof", "5 C15", "Theorems C15_names / C15_unknown_name (exactly sixteen spellings are types), C15_lookup_unknown_iff, C15_reject (no entry for the exact pair, or unrecognised type => decoding fails, whatever twins exist), C15_variant (what is returned carries the variant the exact entry declares). Tie: exhaustive table type spelling x entry scope x wire vendor x twins; every definition of both shipped dictionaries read independently by tools/xmlscan.py.",
